@@ -8,6 +8,7 @@ PID = "C15"
 LEVEL = "other"
 CRATES = ["rlib_iter"]
 RELEASE = True
+NO_HIDDEN_STATE = ['rlib_iter']   # driver rule STATE: these crates are plain data structures / functions
 ARMED = True
 ENGINES = ["E10", "E3"]
 TECHNIQUE = "constant-table comparison of the literal offset arrays, path-fact extraction of the four-sided bounds test in the filter closures with capture-to-parameter binding, term shape of the map closures; impl table and assertion scan for the mask steppers; event shapes of the permutation iterator"
@@ -215,8 +216,31 @@ def _pconds(facts):
     return cs
 
 
+_W = {"usize": 64, "isize": 64, "u64": 64, "i64": 64, "u128": 128, "i128": 128, "u32": 32, "i32": 32, "u16": 16, "i16": 16, "u8": 8, "i8": 8}
+
+
+def _neighbour_widths(col, crate, b, fk):
+    """coordinates and grid sizes are usize: the signed arithmetic on them must not go through a type narrower than the
+    pointer width (`as i32` loses cells of a grid with 2^31 rows or more)"""
+    fam = [b] + [c for c in crate.bodies if c.is_closure and (c.parent == b.key or any(p.key == c.parent and p.is_closure and p.parent == b.key for p in crate.bodies))]
+    narrow = []
+    for m in fam:
+        for bb, idx, st in m.statements():
+            rv = st.get("rv") or {}
+            if st["k"] == "assign" and rv.get("k") == "cast" and rv.get("ck") == "IntToInt":
+                wf, wt = _W.get(rv.get("from")), _W.get(rv.get("ty"))
+                if wf and wt and wf >= 64 and wt < 64:
+                    narrow.append("%s as %s" % (rv.get("from"), rv.get("ty")))
+    key = "%s|widths" % fk(b)
+    if narrow:
+        col.violation("I5", key, b.loc(), "%s narrows a coordinate or a grid size below the pointer width (%s): cells of a grid with 2^31 rows or columns or more are lost or misplaced" % (b.path, ", ".join(sorted(set(narrow)))))
+    else:
+        col.ok("I5", b.loc(), key, "coordinates stay at pointer width", nontrivial=False)
+
+
 def _neighbours_semantic(col, crate, fn, table, b, fk):
     """I4/I5 by evaluating the chain; False when the chain cannot be followed (the shape rules then decide)"""
+    _neighbour_widths(col, crate, b, fk)
     try:
         r = _neighbour_pipeline(crate, b)
     except Exception:  # noqa: BLE001
